@@ -58,13 +58,13 @@ fn new_events(log: &Log, from: usize) -> Vec<Ev> {
 }
 
 fn check_no_reserved(name: &str, log: &Log) -> CaseResult {
-    let mut in_rekey = 0i32;
     for ev in log.events() {
-        match ev {
-            Ev::RekeyBegin { .. } => in_rekey += 1,
-            Ev::RekeyEnd { .. } => in_rekey -= 1,
-            Ev::Enc { nonce, .. } | Ev::Dec { nonce, .. } if nonce == u64::MAX && in_rekey == 0 => {
-                fail!("{name}: the cipher was invoked with the reserved nonce 2^64-1 for a message");
+        match &ev {
+            Ev::Enc { nonce, .. } if *nonce == u64::MAX && !crate::instr::is_rekey_shape(&ev) => {
+                fail!("{name}: the cipher was asked to ENCRYPT a message under the reserved nonce 2^64-1");
+            },
+            Ev::Dec { nonce, .. } if *nonce == u64::MAX => {
+                fail!("{name}: the cipher was asked to DECRYPT a message under the reserved nonce 2^64-1");
             },
             _ => {},
         }
@@ -84,12 +84,12 @@ fn oracle(c: &Case, acc: &mut Acc) -> CaseResult {
     let oneway = spec.pattern().is_oneway();
     let log = Log::default();
     let rng = SharedRng::seeded(c.seed, false);
-    let mut hi = build_snow(&spec, true, &EpOverrides::default(), &Instr { rng: Some(rng.clone()), log: Some(log.clone()) }).map_err(|x| Fail::new(e(&x)))?;
-    let mut hr = build_snow(&spec, false, &EpOverrides::default(), &Instr { rng: Some(rng), log: Some(log.clone()) }).map_err(|x| Fail::new(e(&x)))?;
+    let mut hi = build_snow(&spec, true, &EpOverrides::default(), &Instr { rng: Some(rng.clone()), log: Some(log.clone()) }).map_err(|x| Fail::setup(e(&x)))?;
+    let mut hr = build_snow(&spec, false, &EpOverrides::default(), &Instr { rng: Some(rng), log: Some(log.clone()) }).map_err(|x| Fail::setup(e(&x)))?;
     for k in 0..spec.n_msgs() {
         let (w, r) = if k % 2 == 0 { (&mut hi, &mut hr) } else { (&mut hr, &mut hi) };
-        let m = hs_write(w, b"hs", 65535).map_err(|x| Fail::new(e(&x)))?;
-        hs_read(r, &m, 65535).map_err(|x| Fail::new(e(&x)))?;
+        let m = hs_write(w, b"hs", 65535).map_err(|x| Fail::setup(e(&x)))?;
+        hs_read(r, &m, 65535).map_err(|x| Fail::setup(e(&x)))?;
     }
     // model: index 0 = initiator, 1 = responder
     let mut sn = [0u64; 2];
@@ -103,8 +103,8 @@ fn oracle(c: &Case, acc: &mut Acc) -> CaseResult {
     let exhausted = Err::<usize, Error>(Error::State(StateProblem::Exhausted));
 
     if c.stateless {
-        let ti = hi.into_stateless_transport_mode().map_err(|x| Fail::new(e(&x)))?;
-        let tr = hr.into_stateless_transport_mode().map_err(|x| Fail::new(e(&x)))?;
+        let ti = hi.into_stateless_transport_mode().map_err(|x| Fail::setup(e(&x)))?;
+        let tr = hr.into_stateless_transport_mode().map_err(|x| Fail::setup(e(&x)))?;
         let mut ts = [ti, tr];
         // in stateless mode SetSend/SetRecv select the nonce the caller passes next
         for (step, op) in c.ops.iter().enumerate() {
@@ -188,8 +188,8 @@ fn oracle(c: &Case, acc: &mut Acc) -> CaseResult {
             }
         }
     } else {
-        let ti = hi.into_transport_mode().map_err(|x| Fail::new(e(&x)))?;
-        let tr = hr.into_transport_mode().map_err(|x| Fail::new(e(&x)))?;
+        let ti = hi.into_transport_mode().map_err(|x| Fail::setup(e(&x)))?;
+        let tr = hr.into_transport_mode().map_err(|x| Fail::setup(e(&x)))?;
         let mut ts = [ti, tr];
         ensure!(ts[0].sending_nonce() == 0 && ts[0].receiving_nonce() == 0 && ts[1].sending_nonce() == 0 && ts[1].receiving_nonce() == 0, "{name}: nonces do not start at 0");
         for (step, op) in c.ops.iter().enumerate() {
